@@ -1584,6 +1584,32 @@ def gen_shapes2():
         for order in (0, 1):
             fns = [fa, fb, first, user] if order == 0 else [fa, fb, user, first]
             out.append((["program"] + fns, {"stream": "shapes", "family": "call-key-collision", "k": k, "order": order}))
+    # (e) a bare global constant returned from a nested block in two functions with different result
+    #     types (the second one is ill-typed there), both orders; (f) a loop with a loop-level return
+    #     AND a break as the last statement of a then-body that has an else / else-if part
+    for order in (0, 1):
+        g = Gen(0)
+        cst = ["const", g.ident("LIMIT"), ["prim", "i32"], ["cexpr", ["cval", ["pv", "i32", 7]]]]
+        retc = lambda: ["ret", ["expr", ["name", g.ident("LIMIT")]]]
+        first = ["fn", g.ident("first"), ["params", [g.ident("c"), ["prim", "bool"]]], ["prim", "i32"],
+                 ["body", ["if", ["ifs", ["single", ["expr", ["name", g.ident("c")]]], ["ifbody", retc()], ["noelse"], ["noelif"]]], ["ret", lit("i32", 0)]]]
+        second = ["fn", g.ident("second"), ["params"], ["prim", "bool"], ["body", ["loop", retc()], ["ret", lit("bool", 1)]]]
+        fns = [first, second] if order == 0 else [second, first]
+        out.append((["program", cst] + fns, {"stream": "shapes", "family": "nested-return-of-constant", "order": order}))
+    for k in range(3):
+        g = Gen(0)
+        nm = lambda n: ["single", ["expr", ["name", g.ident(n)]]]
+        lp = ["loop", ["if", ["ifs", nm("d"), ["loopbody", ["break"]], ["noelse"], ["noelif"]]], ["ret", lit("i8", 1)]]
+        other = ["let", g.ident("y"), 0, ["noty"], lit("i8", 7)]
+        if k == 0:
+            st = ["if", ["ifs", nm("c"), ["ifbody", lp], ["else", ["ifbody", other]], ["noelif"]]]
+        elif k == 1:
+            st = ["if", ["ifs", nm("c"), ["ifbody", lp], ["noelse"], ["elif", ["ifs", nm("d"), ["ifbody", other], ["noelse"], ["noelif"]]]]]
+        else:
+            st = ["if", ["ifs", nm("c"), ["ifbody", other], ["else", ["ifbody", lp]], ["noelif"]]]
+        f = ["fn", g.ident("fn1"), ["params", [g.ident("c"), ["prim", "bool"]], [g.ident("d"), ["prim", "bool"]]], ["prim", "i8"],
+             ["body", st, ["let", g.ident("z"), 0, ["noty"], lit("i8", 3)], ["ret", lit("i8", 2)]]]
+        out.append((["program", f], {"stream": "shapes", "family": "returning-breaking-loop-closes-then-body", "k": k}))
     return out
 
 
